@@ -129,7 +129,7 @@ static bool reads_as(const identifier *id, const Model &m) {
   if (!m) return id->_len == 0;
   size_t want = m.binary ? m->size() : m->size() + 1;
   const char *d = (const char *)mpt_identifier_data(id);
-  return id->_len == want && d && !memcmp(d, m->data(), m->size());
+  return id->_len == want && id->_charset == (m.binary ? 0 : identifier::UTF8) && d && !memcmp(d, m->data(), m->size());
 }
 
 static std::string show(const Model &m) {
